@@ -35,7 +35,9 @@ func init() {
 			externEffects[key] = func(lm *loopMods) {
 				lm.tok = true
 				lm.nonFresh = true
+				lm.curDirty = true
 				lm.addType(types.Typ[types.Uint8], false)
+				lm.curDirty = false
 			}
 			aname := fmt.Sprintf("AppendUint%d", n*8)
 			_ = aname
